@@ -49,6 +49,19 @@ impl Aff {
         }
         AffFunc::from_mats(m, Array1::from(self.bias.clone()))
     }
+    /// same function, matrix stored column-major (as produced by `.t().to_owned()` or Fortran-ordered npy data)
+    pub fn to_real_f(&self) -> AffFunc {
+        use ndarray::ShapeBuilder;
+        let r = self.mat.len();
+        let c = self.indim;
+        let mut m = Array2::<f64>::zeros((r, c).f());
+        for i in 0..r {
+            for j in 0..c {
+                m[[i, j]] = self.mat[i][j];
+            }
+        }
+        AffFunc::from_mats(m, Array1::from(self.bias.clone()))
+    }
     pub fn to_map(&self) -> AffMap {
         AffMap {
             m: self.mat.iter().map(|r| r.iter().map(|x| Q::from_f64(*x)).collect()).collect(),
@@ -147,6 +160,31 @@ impl TSpec {
             }
         }
         t
+    }
+    /// Build with every matrix stored column-major (depth-first insertion order).
+    pub fn build_fortran<const K: usize>(&self) -> AffTree<K> {
+        let mut t = AffTree::<K>::from_aff(self.aff().to_real_f());
+        fn rec<const K: usize>(t: &mut AffTree<K>, idx: usize, s: &TSpec) {
+            if let TSpec::Dec(_, ch) = s {
+                for (l, c) in ch.iter().enumerate() {
+                    if let Some(c) = c {
+                        let ci = t.add_child_node(idx, l, c.aff().to_real_f()).unwrap();
+                        rec(t, ci, c);
+                    }
+                }
+            }
+        }
+        rec(&mut t, 0, self);
+        t
+    }
+    /// layout selector shared by the property modules: 0 depth-first, 1 breadth-first, 2 re-used indices, 3 column-major
+    pub fn build_layout<const K: usize>(&self, layout: u8) -> AffTree<K> {
+        match layout % 4 {
+            0 => self.build::<K>(),
+            1 => self.build_bfs::<K>(),
+            2 => self.build_scrambled::<K>(),
+            _ => self.build_fortran::<K>(),
+        }
     }
     /// Build through a history: a decoy subtree is inserted first and removed again so that
     /// arena indices are non-contiguous and re-used.
